@@ -24,7 +24,8 @@ Steps ==
 Init == InitWith(Cfg, Pre)
 Next == NextWith(Steps)
 Spec == Init /\ [][Next]_vars
-Depth == 5
+Depth == 6
+DepthT == 8
 Constraint == Len(hist) <= Len(Pre) + Depth
 ASSUME PrintT(<<"CFG", ToJson(CfgJson(Cfg))>>)
 =============================================================================
